@@ -262,6 +262,43 @@ def transport_case(tk: str, cut_at: int, kind: str, tmo: float | None, cut_delay
             "warm": warm, "parked_reader": parked_reader}
 
 
+def reconnect_case(tk: str, kind: str, tmo: float, restart_ms: int | None) -> dict[str, Any]:
+    """The caller's own transport.reconnect(timeout=tmo) after a loss, the peer accepting again after restart_ms;
+    afterwards one exchange on the transport object reconnect() returned."""
+    rec = Recorder()
+
+    async def main() -> None:
+        peer = Peer(rec, tk, cut_at=-1, kind=kind, cut_delay_ms=0, restart_ms=restart_ms, warm=0)
+        with patched_connections(peer.listener):
+            tr = await transport_class(tk).connect(target(tk))
+            await settle()
+            peer.cut_before_request()
+            await settle()
+            await op(rec, "write", 1.0, tr.write(REQ, timeout=1.0))
+            await op(rec, "read", 1.0, tr.read(timeout=1.0))
+            res, new = await op(rec, "reconnect", tmo, tr.reconnect(timeout=tmo))
+            if res == "ok" and new is not None:
+                tr = new
+                await op(rec, "write", 1.0, tr.write(REQ, timeout=1.0))
+                await op(rec, "read", 1.0, tr.read(timeout=1.0))
+            await op(rec, "close", None, tr.close())
+            await op(rec, "close", None, tr.close())
+        rec.add("Final")
+        await settle()
+
+    try:
+        vloop.run(main(), horizon=120)
+    except (TimeoutError, vloop.BlockedForever):
+        last = next((e for e in reversed(rec.ev) if e["e"] in ("Begin", "End")), None)
+        if last is not None and last["e"] == "Begin":
+            rec.ev.append({"e": "End", "t": last["t"], "op": last["op"], "res": "Hang", "d": []})
+        rec.ev.append({"e": "Final", "t": rec.ev[-1]["t"]})
+    ev = [e for e in rec.ev if e["e"] != "Note"]
+    notes = [e for e in rec.ev if e["e"] == "Note"]
+    return {"cfg": {"ackTime": ACK[tk], "retries": 0, "expect": list(REPLY), "window": -1}, "ev": ev, "tk": tk,
+            "cut_at": -1, "kind": kind, "tmo": tmo, "restart": restart_ms, "level": "reconnect", "notes": notes}
+
+
 def client_case(tk: str, cut_at: int, kind: str, retries: int, restart_ms: int | None, cut_delay_ms: int,
                 warm: int = 0, follow_up: bool = False, via_config: bool = False, mute_handshake: int = 0
                 ) -> dict[str, Any]:
@@ -381,13 +418,20 @@ def run(tier: str, seed: int) -> Report:
         for wt in (0.3, 0.5, 1.0, 2.5):
             add(transport_case(tk, -1, "Silence", wt, 0, parked_reader=True))
             add(transport_case(tk, 0, "Silence", wt, 0, warm=1, parked_reader=True))
+        # the caller's own reconnect(timeout) with the peer coming back early / late in the window / not at all
+        for kind in ("EOF", "Reset"):
+            for tmo_r in (1.0, 3.0):
+                for frac in ((0.0, 0.3, 0.63, 0.8) if tier == "quick" else (0.0, 0.1, 0.3, 0.5, 0.63, 0.8, 0.85)):
+                    add(reconnect_case(tk, kind, tmo_r, int(tmo_r * 1000 * frac)))
+                add(reconnect_case(tk, kind, tmo_r, None))
         # client level
         step = 1 if tier == "thorough" else 3
         for k in [-1] + list(range(0, total + 1, step)) + [total]:
             for kind in KINDS:
                 for R in (0, 1, 2):
-                    for restart in ((0, 50, 100, 150, 250, 1000, 3000, 9000, 11000, None) if tier == "thorough"
-                                    else (0, 100, 3000, None)):
+                    late = (7000, 9000) if tk == "doip" and (k % 6 == 0 or k <= 0) else ()  # late in DoIP's 10 s window
+                    for restart in ((0, 50, 100, 150, 250, 1000, 3000, 5000, 7000, 9000, 11000, None) if tier == "thorough"
+                                    else (0, 100, 3000) + late + (None,)):
                         if kind == "Silence" and restart not in (0,):
                             continue
                         add(client_case(tk, k, kind, R, restart, 0))
